@@ -63,7 +63,7 @@ Definition at_suite_C19 (md op a b cc : N) (obs : list tok) : verdict :=
           if (a <? W64) && (b <? W64) && (cc <? W64) then
           let c := {| c_mode := if md =? 0 then Debug else Release; c_op := op'; c_a := a; c_b := b; c_c := cc |} in
           let o := {| o_kind := k; o_val := v; o_flag := negb (f =? 0) |} in
-          {| v_model := enc19 (run_C19 c); v_ok := ok_C19 c o; v_wellformed := true |}
+          {| v_model := enc19 (run_C19 c); v_ok := (k <? 9) && ok_C19 c o;   (* kinds 9 / 10: the two types resp. the two call routes disagree *) v_wellformed := true |}
           else malformed
       | None => malformed end
   | _ => malformed end.
